@@ -19,6 +19,7 @@ type inputRec struct {
 	Kind string `json:"kind"`
 	Val  uint64 `json:"val"`
 	Data []byte `json:"data"`
+	Env  bool   `json:"env"`
 }
 
 type violation struct {
@@ -40,6 +41,12 @@ var (
 func next(kind string) inputRec {
 	if cur == nil || cursor >= len(cur.Inputs) {
 		panic(stopExhausted{})
+	}
+	for cur.Inputs[cursor].Env { // values drawn by environment models: not consumed natively
+		cursor++
+		if cursor >= len(cur.Inputs) {
+			panic(stopExhausted{})
+		}
 	}
 	r := cur.Inputs[cursor]
 	cursor++
